@@ -354,6 +354,32 @@ theorem mem_pyRange (lo hi x : Int) : x ∈ pyRange lo hi ↔ lo ≤ x ∧ x < h
 theorem env_composition (c : Cfg) (k : String) : envGet (childEnv c) k = promisedLookup c k := by
   rw [childEnv_eq, envGet_envUpdate, envGet_envUpdate, promisedLookup]
 
+/-- **The configured environment is the program's own.**  The loop at the end of `read_config` gives every process
+    configuration the [supervisord] environment overlaid with the `environment=` of ITS section: the environments of the
+    other programs of the file, their number and the order in which they are processed do not enter. -/
+theorem configured_env_independent (sectionEnv : Env) (procEnvs : List Env) :
+    parseMergeAll read_config_env_copied sectionEnv procEnvs = procEnvs.map (parseMerge sectionEnv) := by
+  simp [parseMergeAll, read_config_env_copied]
+
+theorem configured_env_of_program (sectionEnv own : Env) (before after : List Env) :
+    (parseMergeAll read_config_env_copied sectionEnv (before ++ own :: after))[before.length]? = some (parseMerge sectionEnv own) := by
+  simp [configured_env_independent]
+
+/-- … and that environment, not another program's, is what `execve` gets on top of supervisord's own and SUPERVISOR_*:
+    for the program at any position of the file, with any programs before and after it -/
+theorem exec_env_of_program (c : Cfg) (sectionEnv own : Env) (before after : List Env)
+    (h : (parseMergeAll read_config_env_copied sectionEnv (before ++ own :: after))[before.length]? = some (c.environment.getD [])) :
+    childEnv c = envUpdate (envUpdate c.osenv (supervisorVars c)) (envUpdate sectionEnv own) := by
+  rw [configured_env_of_program] at h
+  injection h with h
+  rw [childEnv_eq, ← h, parseMerge]
+
+-- the same loop with ONE dictionary for all programs (`env = section.environment`): alpha would run with gamma's settings
+example : parseMergeAll false [("SHARED", "sup")] [[("SHARED", "alpha")], [], [("SHARED", "gamma"), ("ONLY_GAMMA", "1")]]
+    = List.replicate 3 [("SHARED", "gamma"), ("ONLY_GAMMA", "1")] := by decide
+example : parseMergeAll read_config_env_copied [("SHARED", "sup")] [[("SHARED", "alpha")], [], [("SHARED", "gamma"), ("ONLY_GAMMA", "1")]]
+    = [[("SHARED", "alpha")], [("SHARED", "sup")], [("SHARED", "gamma"), ("ONLY_GAMMA", "1")]] := by decide
+
 /-- the three shapes of a run of the child, used by all theorems below -/
 theorem childLog_cases (c : Cfg) (orc : Oracle) :
     (∃ d, d.map (·.call) = promisedCalls c ∧ CanSwitch c ∧ (∀ e ∈ d, OkEv e ∧ e.call.isPrep = true) ∧
